@@ -665,6 +665,9 @@ var preIdioms = []string{
 	"hs = make(struct{A int64})\nhs.A = %s\nhq = &hs\nhq.A = %d",
 	"hv = %s\nfor hi = 0; hi < 3; hi++ { hv = hv + hi }\nhp = &hv\n*hp = %d",
 	"hp = new(int64)\n*hp = %s\n*hp += %d",
+	// the address of the operator expression itself, no variable in between
+	"hp = &%s\n*hp = %d",
+	"hp = &%s\n*hp += %d\nhq = &(*hp)\n*hq = %d",
 }
 
 func smallExpr(t *rapid.T) string {
@@ -923,5 +926,5 @@ func TestC05(t *testing.T) {
 	c.Rule("site: a function applying ONE operator to its parameters is called for 2-6 operand pairs of different kinds (int64/float64/string edge pools); every call must give what Go computes for that pair alone (errors included), whatever the same source location computed before; non-trivial = the pairs are of >= 2 kind combinations")
 	h.Run(c, "site", c.N(15000, 150000), genSite, oracleSite)
 	c.Rule("again: one parsed expression tree (half of the leaves literals; a third of the trees hold an operator the statement makes an error: % by zero, a string repeated a negative number of times) evaluated 2-4 times: body of a function called again, loop body, the parsed statements run again by the host (fresh / same environment); every evaluation must give what Go computes for the operands, errors included; non-trivial = the tree has an operator; distinct by form and source text")
-	h.Run(c, "again", c.N(5000, 50000), genAgain, oracleAgain)
+	h.Run(c, "again", c.N(4000, 40000), genAgain, oracleAgain)
 }
